@@ -14,6 +14,7 @@ from ..channels import draw_read_channel, read_via
 from ..core import Prop, Result
 from ..engines import EngineTrace
 from ..simfs import SimFS, Policy
+from ..swarm import neutral_read_kw, fix_kw
 
 INTS = ["0", "7", "12", "-3", "+4", "100", "-250", "99999"]
 FIXED = ["0.0", "1.5", "-2.25", "+3.125", "10.0001", "-0.5", "123.456", "0.001"]
@@ -133,7 +134,7 @@ class C02(Prop):
         if g.random() < 0.25:
             # a NULL value that also occurs in the index column (index samples are never nulled) or as an ordinary cell
             null = g.choice([rows[g.randrange(nr)]["cells"][0], "0", "7", "1.5", "100", "101.0"])
-        return {"null": null, "case": g.choice(["upper", "upper", "lower", "preserve"]), "ncols": nc, "rows": rows, "noise": noise, "title": g.choice(TITLES), "tail": tail, "pre": pre,
+        return {"null": null, "case": g.choice(["upper", "upper", "lower", "preserve"]), "nkw": neutral_read_kw(g, exclude=("null_policy", "dtypes")), "ncols": nc, "rows": rows, "noise": noise, "title": g.choice(TITLES), "tail": tail, "pre": pre,
                 "final_newline": g.random() < 0.6, "vers": g.choice([1.2, 2.0]), "dlm": dlm, "channel": cfg,
                 "policy": Policy.draw(st.io).to_json(), "force_fallback": st.fault.random() < 0.3}
 
@@ -141,7 +142,7 @@ class C02(Prop):
         fs = SimFS(policy=Policy.from_json(sc["policy"]))
         with fs, EngineTrace(force_numpy_fail=force) as tr:
             try:
-                las = read_via(fs, text, sc["channel"], {"engine": engine, "mnemonic_case": sc.get("case", "upper")}, tag="c02")
+                las = read_via(fs, text, sc["channel"], fix_kw(dict(sc.get("nkw") or {}, engine=engine, mnemonic_case=sc.get("case", "upper"))), tag="c02")
                 return las, None, tr, fs
             except Exception as e:
                 return None, e, tr, fs
